@@ -1372,6 +1372,191 @@ mod imp {
                     Ok("ok".into())
                 }),
             ));
+            // L: nested invokes: the child invokes a grandchild and relays its event; when the parent leaves the
+            // invoking state the child is cancelled and, by exiting its own invoking state, cancels the grandchild:
+            // a probe queued behind that cancellation is never processed and no session thread is left behind
+            let grand_l = r##"<scxml xmlns="http://www.w3.org/2005/07/scxml" version="1.0" datamodel="rfsm-expression" name="grand"><state id="g"><onentry><script>notify('gsid' + _sessionid)</script><send event="g1" target="#_parent"/></onentry><transition event="*"><script>mark('g-got', _event.name)</script></transition></state></scxml>"##;
+            let kid_l = format!(
+                r##"<scxml xmlns="http://www.w3.org/2005/07/scxml" version="1.0" datamodel="rfsm-expression" name="kid"><state id="k"><invoke id="gk"><content>{grand}</content><finalize><script>mark('k-finalize', _event.name)</script></finalize></invoke>
+<onexit><script>notify('kid-exit')</script></onexit>
+<transition event="g1"><script>mark('k-child-event', _event.name, _event.invokeid)</script><send event="c1" target="#_parent"/></transition>
+<transition event="*"><script>mark('k-other', _event.name)</script></transition></state></scxml>"##,
+                grand = grand_l
+            );
+            let doc_l = parent_doc(&inv_content("kid", "", &kid_l), "");
+            v.push(Scenario {
+                name: "nested-invoke",
+                quick_bound: 1,
+                thorough_bound: 2,
+                atomics: false,
+                body: Box::new(move |log, _notes| {
+                    let doc = doc_l.clone();
+                    Box::new(move || {
+                        let ex = FsmExecutor::new_without_io_processor();
+                        let (tx, rx) = verif_sync::mpsc::channel::<String>();
+                        let sess = start_n(&ex, &doc, &log, &tx);
+                        let _ = sess.sender.send(Box::new(Event::new_simple("go")));
+                        let mut g_sid = 0u32;
+                        let mut c1 = false;
+                        while g_sid == 0 || !c1 {
+                            match rx.recv() {
+                                Ok(m) => {
+                                    if let Some(n) = m.strip_prefix("gsid") {
+                                        g_sid = n.parse().unwrap_or(0);
+                                    } else if m == "c1" {
+                                        c1 = true;
+                                    }
+                                }
+                                Err(_) => break,
+                            }
+                        }
+                        let _ = sess.sender.send(Box::new(Event::new_simple("leave")));
+                        // the child runs its onexit content after it has sent the cancellation to its own children
+                        wait_for(&rx, &["kid-exit"]);
+                        let _ = ex.send_to_session(g_sid, Event::new_simple("probe"));
+                        let _ = sess.sender.send(Box::new(Event::new_simple("fin")));
+                        wait_for(&rx, &["fin"]);
+                        cancel_and_join(sess);
+                    })
+                }),
+                oracle: Box::new(|o: &Obs| {
+                    basic_outcome(o)?;
+                    if threads_entering(o, "k").len() != 1 || threads_entering(o, "g").len() != 1 {
+                        return Err(("start-count".into(), format!("child started {} times, grandchild {} times", threads_entering(o, "k").len(), threads_entering(o, "g").len())));
+                    }
+                    let kc = marks_of(o, "k-child-event");
+                    if kc != vec![vec!["k-child-event".to_string(), "g1".to_string(), "gk".to_string()]] {
+                        return Err(("child-event".into(), format!("the child processed events of the grandchild: {:?} (expected g1 with invokeid gk)", kc)));
+                    }
+                    let kf: Vec<String> = marks_of(o, "k-finalize").iter().map(|m| m[1].clone()).collect();
+                    if kf.first().map(|s| s.as_str()) != Some("g1") {
+                        return Err(("finalize-order".into(), format!("the child's <finalize> ran for {:?}", kf)));
+                    }
+                    let pc = marks_of(o, "p-child-event");
+                    if pc != vec![vec!["p-child-event".to_string(), "c1".to_string(), "kid".to_string()]] {
+                        return Err(("child-event".into(), format!("the parent processed child events {:?}", pc)));
+                    }
+                    let gg: Vec<String> = marks_of(o, "g-got").iter().map(|m| m[1].clone()).collect();
+                    if gg.iter().any(|n| n == "probe") {
+                        return Err(("child-not-cancelled".into(), format!("the child was cancelled and exited its invoking state, yet the grandchild still processed an event sent afterwards: {:?}", gg)));
+                    }
+                    if !marks_of(o, "p-done").is_empty() {
+                        return Err(("done-invoke".into(), format!("done.invoke of a cancelled child processed: {:?}", marks_of(o, "p-done"))));
+                    }
+                    Ok("ok".into())
+                }),
+            });
+            // M: the child document comes from a file: src (XML) and srcexpr (binary .rfsm image of the same document)
+            {
+                // the reader resolves a document location relative to the working directory (a leading '/' is dropped)
+                let dir = "scratch/C14src".to_string();
+                let _ = std::fs::create_dir_all(&dir);
+                let put = |name: &str, bytes: &[u8]| -> String {
+                    let p = format!("{}/{}", dir, name);
+                    let tmp = format!("{}.{}.tmp", p, std::process::id());
+                    let _ = std::fs::write(&tmp, bytes);
+                    let _ = std::fs::rename(&tmp, &p);
+                    p
+                };
+                let xml_path = put("kid_a.scxml", child_a.as_bytes());
+                let bin_path = {
+                    use rufsm::serializer::default_protocol_writer::DefaultProtocolWriter;
+                    use rufsm::serializer::fsm_writer::FsmWriter;
+                    let fsm = parse(&child_a).expect("child document must parse");
+                    let mut w: FsmWriter<Vec<u8>> = FsmWriter::new(Box::new(DefaultProtocolWriter::new(Vec::new())));
+                    w.write(&fsm);
+                    w.close();
+                    let buf = w.get_writer().clone();
+                    put("kid_a.rfsm", &buf)
+                };
+                let oracle_m = || -> Oracle {
+                    Box::new(|o: &Obs| {
+                        basic_outcome(o)?;
+                        let kids = threads_entering(o, "k");
+                        if kids.len() != 1 {
+                            return Err(("start-count".into(), format!("the invoke (child document from a file) was started {} times", kids.len())));
+                        }
+                        let kd = marks_of(o, "k-data");
+                        if kd != vec![vec!["k-data".to_string(), "5".to_string(), "false".to_string()]] {
+                            return Err(("param-passing".into(), format!("child data after start: {:?} (declared cv must be 5, undeclared 'undecl' must not exist)", kd)));
+                        }
+                        let ce = marks_of(o, "p-child-event");
+                        if ce != vec![vec!["p-child-event".to_string(), "c1".to_string(), "kid".to_string()]] {
+                            return Err(("child-event".into(), format!("parent processed child events {:?}", ce)));
+                        }
+                        let dn = marks_of(o, "p-done");
+                        if dn.len() != 1 || dn[0][1] != "done.invoke.kid" {
+                            return Err(("done-invoke".into(), format!("done.invoke processed: {:?}", dn)));
+                        }
+                        let seq: Vec<String> = o
+                            .recs
+                            .iter()
+                            .filter_map(|(_, r)| match r {
+                                Rec::Mark { args, .. } if ["p-child-event", "p-done"].contains(&args[0].as_str()) => Some(args[1].clone()),
+                                _ => None,
+                            })
+                            .collect();
+                        if seq != vec!["c1".to_string(), "done.invoke.kid".to_string()] {
+                            return Err(("done-invoke".into(), format!("done.invoke must come after the child's other events: {:?}", seq)));
+                        }
+                        Ok("ok".into())
+                    })
+                };
+                let inv_src = format!(
+                    r##"<invoke id="kid" src="{}"><param name="cv" expr="v"/><param name="undecl" expr="1"/><finalize><script>mark('finalize', _event.name)</script></finalize></invoke>"##,
+                    xml_path
+                );
+                v.push(scen("invoke-src-file", 0, 1, parent_doc(&inv_src, ""), vec![("go", "done"), ("fin", "fin")], oracle_m()));
+                let (stem, _) = bin_path.rsplit_once('.').unwrap();
+                let inv_srcexpr = format!(
+                    r##"<invoke id="kid" srcexpr="'{}' + '.rfsm'"><param name="cv" expr="v"/><param name="undecl" expr="1"/></invoke>"##,
+                    stem
+                );
+                v.push(scen("invoke-srcexpr-binary", 0, 1, parent_doc(&inv_srcexpr, ""), vec![("go", "done"), ("fin", "fin")], oracle_m()));
+            }
+            // N: namelist and idlocation: only declared child data are set; the generated id (stateid.platformid) is
+            // stored before the child runs, is the invokeid of the child's events and names the done event
+            let kid_n = child_doc(
+                r##"<state id="k"><onentry><script>mark('k-data', cv, isDefined(w))</script><send event="c1" target="#_parent"/></onentry><transition target="kf"/></state><final id="kf"/>"##,
+            );
+            let doc_n = format!(
+                r##"<scxml {ns} name="parn"><datamodel><data id="cv" expr="11"/><data id="w" expr="3"/><data id="iid" expr="''"/></datamodel>
+<state id="a"><transition event="go" target="b"/></state>
+<state id="b"><invoke idlocation="iid" namelist="cv w"><content>{kid}</content></invoke>
+ <transition event="c1"><script>mark('p-child-event', _event.name, _event.invokeid, iid)</script></transition>
+ <transition event="done.invoke"><script>mark('p-done', _event.name, _event.invokeid, iid); notify('done')</script></transition>
+ <transition event="fin"><script>notify('fin')</script></transition></state></scxml>"##,
+                ns = NS,
+                kid = kid_n
+            );
+            v.push(scen(
+                "namelist-and-idlocation",
+                0,
+                1,
+                doc_n,
+                vec![("go", "done"), ("fin", "fin")],
+                Box::new(|o: &Obs| {
+                    basic_outcome(o)?;
+                    let kd = marks_of(o, "k-data");
+                    if kd != vec![vec!["k-data".to_string(), "11".to_string(), "false".to_string()]] {
+                        return Err(("param-passing".into(), format!("child data after start with namelist=\"cv w\": {:?} (declared cv must be 11, undeclared w must not exist)", kd)));
+                    }
+                    let ce = marks_of(o, "p-child-event");
+                    let dn = marks_of(o, "p-done");
+                    if ce.len() != 1 || dn.len() != 1 {
+                        return Err(("child-event".into(), format!("child events {:?}, done events {:?}", ce, dn)));
+                    }
+                    let iid = ce[0][3].clone();
+                    let tail = iid.strip_prefix("b.").unwrap_or("");
+                    if tail.is_empty() || !tail.chars().all(|c| c.is_ascii_digit()) {
+                        return Err(("generated-id".into(), format!("idlocation holds {:?} (expected b.<platformid>)", iid)));
+                    }
+                    if ce[0][2] != iid || dn[0][2] != iid || dn[0][3] != iid || dn[0][1] != format!("done.invoke.{}", iid) {
+                        return Err(("generated-id".into(), format!("invoke id stored by idlocation {:?}; child event {:?}; done event {:?}", iid, ce[0], dn[0])));
+                    }
+                    Ok("ok".into())
+                }),
+            ));
         }
         if prop == "C15" {
             // routing: a parent with an invoked child and a sibling; every target form once, literal and targetexpr,
